@@ -261,7 +261,10 @@ def _c16_payloads(ctx):
         crop = sim.CROPS[i % len(sim.CROPS)]
         soil = (sim.SOILS + ["custom", "texture"])[(i // 3) % (len(sim.SOILS) + 2)]
         cfg = sim.gen_config(rng, crop=crop, soil_type=soil, method=i % 6, strict=False)
-        pl.append({"cfg": cfg})
+        p = {"cfg": cfg}
+        if i % 5 == 3:
+            p["prehistory"] = [-3, -2, 2, 4][(i // 5) % 4]      # the same input objects were used before over a window shifted by so many years
+        pl.append(p)
     return pl
 
 
